@@ -70,6 +70,19 @@ Definition check_class (c : gwclass) : bool :=
 
 End Check.
 
+(* Gateway.alert as far as the options event_callback / persistence take effect
+   through it: (is the callback invoked, is the network marked as changed).
+   Generated facts: alert_calls_callback, alert_dirty. *)
+Definition alert_model (has_callback persistence_on dirty : bool) : bool * bool :=
+  (has_callback && alert_calls_callback,
+   if persistence_on
+      && match alert_dirty with
+         | DirtyAlways => true
+         | DirtyOnlyWithCallback => has_callback
+         | DirtyNever => false
+         end
+   then true else dirty).
+
 (* the generated facts agree with the specification's reading of the documentation *)
 Definition gen_supported : list (list N * pstr) :=
   map (fun km => (sections (fst km), snd km)) const_versions.
